@@ -56,6 +56,11 @@ pub fn check(d: &AdjacencyMap, m: &Model, o: &mut CaseOut) -> usize {
         let again = j.circuits();
         o.check(again == got, "circuits-differ-on-second-call", || crate::ctx::clip(&format!("first {got:?} second {again:?}")));
         let cloned = cl.circuits();
+        let mut x = Johnson75::new(d);
+        let _ = x.circuits();
+        x.clone_from(&Johnson75::new(d));
+        let via = x.circuits();
+        o.check(via == got, "circuits-differ-after-clone_from", || crate::ctx::clip(&format!("first {got:?} via clone_from {via:?}")));
         o.check(cloned == got, "circuits-differ-on-a-clone", || crate::ctx::clip(&format!("first {got:?} clone {cloned:?}")));
     }
     let want = m.circuits();
